@@ -355,13 +355,18 @@ end
 
 /- the type trees of this section: scalars, list, set, map and NON-EMPTY tuples at any depth (Cassandra has no
     tuple without fields; gocql writes a nil slice for one).  UDTs: framing by `udtAssemble`, not in this induction -/
+/-- no field name twice (a UDT definition: `CREATE TYPE` refuses duplicate field names) -/
+def nodupB : List String → Bool
+  | [] => true
+  | n :: r => !r.contains n && nodupB r
+
 mutual
 def nest : CqlTy → Bool
   | .list e => nest e
   | .set e => nest e
   | .map k v => nest k && nest v
   | .tuple ts => !ts.isEmpty && nestAll ts
-  | .udt _ _ => false
+  | .udt names ts => !names.isEmpty && nodupB names && names.length == ts.length && nestAll ts
   | _ => true
 def nestAll : List CqlTy → Bool
   | [] => true
@@ -610,15 +615,15 @@ def ConfFields (p : Nat) (ts : List CqlTy) (r : MRes) (ocs : Option (List CqlVal
   | .err => True
   | _ => False
 
-theorem interp_nil (t : CqlTy) (hn : nest t = true) : interp t .nil = some .null := by
-  cases t <;> simp [interp, interpScalar, nest] at hn ⊢
+theorem interp_nil (t : CqlTy) (hd : documented t .nil = true) : interp t .nil = some .null := by
+  cases t <;> simp [interp, interpScalar, documented] at hd ⊢
 
-theorem ifaces_conf (p : Nat) : ∀ (ts : List CqlTy) (vs : List GoVal), nestAll ts = true → AllConf p ts vs →
+theorem ifaces_conf (p : Nat) : ∀ (ts : List CqlTy) (vs : List GoVal), documentedFields ts vs = true → AllConf p ts vs →
     ConfFields p ts (marshalTupleIfaces p ts vs) (interpFields ts vs)
   | [], _, _, _ => by simp [marshalTupleIfaces, interpFields, ConfFields, specEncFields]
   | _ :: _, [], _, _ => by simp [marshalTupleIfaces, interpFields, ConfFields, specEncFields]
   | t :: ts, v :: vs, hn, hall => by
-    simp only [nestAll, Bool.and_eq_true] at hn
+    simp only [documentedFields, Bool.and_eq_true] at hn
     obtain ⟨hv, hrest⟩ := hall
     have ih := ifaces_conf p ts vs hn.2 hrest
     rw [marshalTupleIfaces, interpFields]
@@ -851,6 +856,200 @@ theorem allconf_of (p : Nat) : ∀ (ts : List CqlTy) (vs : List GoVal),
     exact ⟨H v (List.mem_cons_self ..) t hn.1 hw.1 hd.1 hx.1,
       allconf_of p ts vs (fun w hw' => H w (List.mem_cons_of_mem _ hw')) hn.2 hw.2 hd.2 hx.2⟩
 
+/-! ### UDT: for each field of the type, in order, the Go entry of that name (absent → null), `appendBytes` -/
+
+theorem lookupIdx_some (n : String) : ∀ (l : List String) (k i : Nat), lookupIdx n l k = some i → k ≤ i ∧ l[i - k]? = some n
+  | [], _, _, h => by simp [lookupIdx] at h
+  | m :: r, k, i, h => by
+    simp only [lookupIdx] at h
+    split at h
+    · rename_i hm
+      injection h with h
+      subst h
+      simp [hm]
+    · obtain ⟨h1, h2⟩ := lookupIdx_some n r (k + 1) i h
+      refine ⟨by omega, ?_⟩
+      have : i - k = (i - (k + 1)) + 1 := by omega
+      rw [this]
+      simpa using h2
+
+theorem lookupIdx_nodup (n : String) : ∀ (l : List String) (k j : Nat), nodupB l = true → l[j]? = some n →
+    lookupIdx n l k = some (k + j)
+  | [], _, _, _, h => by simp at h
+  | m :: r, k, j, hnd, h => by
+    simp only [nodupB, Bool.and_eq_true, Bool.not_eq_true'] at hnd
+    cases j with
+    | zero =>
+      simp at h
+      simp [lookupIdx, h]
+    | succ j' =>
+      simp at h
+      have hne : ¬ m = n := by
+        intro e
+        subst e
+        have : m ∈ r := List.mem_of_getElem? h
+        have h1 := hnd.1
+        simp [this] at h1
+      simp only [lookupIdx, hne, if_false]
+      rw [lookupIdx_nodup n r (k + 1) j' hnd.2 h]
+      congr 1
+      omega
+
+theorem nestAll_get : ∀ (ts : List CqlTy) (j : Nat) (t : CqlTy), nestAll ts = true → ts[j]? = some t → nest t = true
+  | [], _, _, _, h => by simp at h
+  | a :: r, j, t, hn, h => by
+    simp only [nestAll, Bool.and_eq_true] at hn
+    cases j with
+    | zero => simp at h; subst h; exact hn.1
+    | succ j' => simp at h; exact nestAll_get r j' t hn.2 h
+
+/-- what marshalNamed / interpNamed compute for one Go entry (name, value) -/
+def entryM (p : Nat) (names : List String) (ts : List CqlTy) (fn : String) (v : GoVal) : MRes :=
+  match lookupIdx fn names 0 with
+  | some i => (match ts[i]? with
+      | some t => marshal p t v
+      | none => .ok none)
+  | none => .ok none
+
+def entryI (names : List String) (ts : List CqlTy) (fn : String) (v : GoVal) : Option CqlVal :=
+  match lookupIdx fn names 0 with
+  | some i => (match ts[i]? with
+      | some t => interp t v
+      | none => some .null)
+  | none => some .null
+
+theorem named_at (p : Nat) (names : List String) (ts : List CqlTy) : ∀ (fnames : List String) (vs : List GoVal) (i : Nat),
+    (marshalNamed p names ts fnames vs)[i]? =
+      (match fnames[i]?, vs[i]? with | some fn, some v => some (entryM p names ts fn v) | _, _ => none) ∧
+    (interpNamed names ts fnames vs)[i]? =
+      (match fnames[i]?, vs[i]? with | some fn, some v => some (entryI names ts fn v) | _, _ => none)
+  | [], _, _ => by simp [marshalNamed, interpNamed]
+  | _ :: _, [], i => by
+    simp only [marshalNamed, interpNamed]
+    cases i <;> simp <;> split <;> simp_all
+  | fn :: fr, v :: vr, 0 => by
+    simp only [marshalNamed, interpNamed, List.getElem?_cons_zero]
+    exact ⟨rfl, rfl⟩
+  | fn :: fr, v :: vr, i + 1 => by
+    have := named_at p names ts fr vr i
+    simpa [marshalNamed, interpNamed] using this
+
+theorem named_props (p : Nat) (names : List String) (ts : List CqlTy) :
+    ∀ (fnames : List String) (vs : List GoVal) (i : Nat) (fn : String) (v : GoVal),
+      fnames[i]? = some fn → vs[i]? = some v → documentedNamed names ts fnames vs = true →
+      excludedNamed p names ts fnames vs = false →
+      ∀ j t, lookupIdx fn names 0 = some j → ts[j]? = some t → documented t v = true ∧ excluded p t v = false
+  | [], _, _, _, _, h, _, _, _ => by simp at h
+  | _ :: _, [], _, _, _, _, h, _, _ => by simp at h
+  | f0 :: fr, v0 :: vr, 0, fn, v, hf, hv, hd, hx => by
+    intro j t hj ht
+    simp at hf hv
+    subst hf; subst hv
+    simp only [documentedNamed, excludedNamed, hj, ht, Bool.and_eq_true, Bool.or_eq_false_iff] at hd hx
+    exact ⟨hd.1, hx.1⟩
+  | f0 :: fr, v0 :: vr, i + 1, fn, v, hf, hv, hd, hx => by
+    simp at hf hv
+    simp only [documentedNamed, excludedNamed, Bool.and_eq_true, Bool.or_eq_false_iff] at hd hx
+    exact named_props p names ts fr vr i fn v hf hv hd.2 hx.2
+
+/-- the contribution of one field of the UDT type -/
+theorem udt_field_conf (p : Nat) (names : List String) (ts : List CqlTy) (fnames : List String) (vs : List GoVal)
+    (IH : ∀ v ∈ vs, ∀ t, nest t = true → wf v → documented t v = true → excluded p t v = false →
+      Conf p t (marshal p t v) (interp t v))
+    (hnd : nodupB names = true) (hnest : nestAll ts = true) (hw : wfAll vs)
+    (hd : documentedNamed names ts fnames vs = true) (hx : excludedNamed p names ts fnames vs = false)
+    (j : Nat) (n : String) (t : CqlTy) (hn : names[j]? = some n) (ht : ts[j]? = some t) :
+    Conf p t
+      (match lookupIdx n fnames 0 with
+        | some i => (match (marshalNamed p names ts fnames vs)[i]? with | some r => r | none => .ok none)
+        | none => .ok none)
+      (match lookupIdx n fnames 0 with
+        | some i => (match (interpNamed names ts fnames vs)[i]? with | some r => r | none => some CqlVal.null)
+        | none => some CqlVal.null) := by
+  cases hl : lookupIdx n fnames 0 with
+  | none => simp [Conf]
+  | some i =>
+    have hfi : fnames[i]? = some n := by simpa using (lookupIdx_some n fnames 0 i hl).2
+    obtain ⟨hE, hI⟩ := named_at p names ts fnames vs i
+    rw [hfi] at hE hI
+    cases hv : vs[i]? with
+    | none =>
+      rw [hv] at hE hI
+      simp only [hE, hI]
+      simp [Conf]
+    | some v =>
+      rw [hv] at hE hI
+      simp only [hE, hI]
+      have hj : lookupIdx n names 0 = some j := by
+        have := lookupIdx_nodup n names 0 j hnd hn
+        simpa using this
+      obtain ⟨hdv, hxv⟩ := named_props p names ts fnames vs i n v hfi hv hd hx j t hj ht
+      have hmem : v ∈ vs := List.mem_of_getElem? hv
+      have := IH v hmem t (nestAll_get ts j t hnest ht) (wfAll_mem vs hw v hmem) hdv hxv
+      simpa [entryM, entryI, hj, ht] using this
+
+theorem assemble_conf (p : Nat) (R : String → MRes) (O : String → Option CqlVal) :
+    ∀ (names : List String) (ts : List CqlTy), names.length = ts.length →
+      (∀ (j : Nat) (n : String) (t : CqlTy), names[j]? = some n → ts[j]? = some t → Conf p t (R n) (O n)) →
+      ConfFields p ts (seqItems (fun item => some (appendBytes item)) (names.map R)) (names.mapM O)
+  | [], [], _, _ => by simp [seqItems, ConfFields, specEncFields]
+  | [], _ :: _, h, _ => by simp at h
+  | _ :: _, [], h, _ => by simp at h
+  | n :: ns, t :: ts, hlen, H => by
+    have h0 := H 0 n t rfl rfl
+    have ih := assemble_conf p R O ns ts (by simpa using hlen) (fun j n' t' hn' ht' => H (j + 1) n' t' (by simpa using hn') (by simpa using ht'))
+    simp only [List.map_cons, seqItems, List.mapM_cons]
+    generalize R n = r0 at h0 ⊢
+    generalize O n = oc at h0 ⊢
+    generalize seqItems (fun item => some (appendBytes item)) (ns.map R) = rr at ih ⊢
+    generalize ns.mapM O = ocs at ih ⊢
+    cases r0 with
+    | ok item =>
+      cases rr with
+      | ok ob =>
+        cases ob with
+        | none => exact ih.elim
+        | some rest =>
+          simp only [ConfFields] at ih ⊢
+          intro hl
+          cases item with
+          | none =>
+            simp only [Conf] at h0
+            obtain ⟨cs, hcs, hspec⟩ := ih (by simp [List.length_append] at hl; omega)
+            refine ⟨.null :: cs, by simp [h0, hcs], ?_⟩
+            simp [specEncFields, fieldOrNull, CqlVal.isNull, bytesFrame, C12Coll.appendBytes_null, hspec]
+          | some b =>
+            simp only [Conf] at h0
+            have hb : b.length < 2^31 := by
+              rw [C12Coll.appendBytes_some] at hl
+              simp [List.length_append] at hl; omega
+            obtain ⟨c, hc, hnn, hs⟩ := h0 hb
+            obtain ⟨cs, hcs, hspec⟩ := ih (by simp [List.length_append] at hl; omega)
+            refine ⟨c :: cs, by simp [hc, hcs], ?_⟩
+            have hb' : b.length < 2147483648 := hb
+            simp [specEncFields, fieldOrNull, hnn, hs, hb', bytesFrame, C12Coll.appendBytes_some, hspec]
+      | err => trivial
+      | crash => exact ih.elim
+      | unmodelled => exact ih.elim
+    | err => trivial
+    | crash => exact h0.elim
+    | unmodelled => exact h0.elim
+
+theorem udt_conf (p : Nat) (names : List String) (ts : List CqlTy) (r : MRes) (ocs : Option (List CqlVal))
+    (h : ConfFields p ts r ocs) : Conf p (.udt names ts) r (ocs.map CqlVal.tuple) := by
+  cases r with
+  | ok ob =>
+    cases ob with
+    | none => exact h.elim
+    | some body =>
+      simp only [ConfFields] at h
+      intro hl
+      obtain ⟨cs, hcs, hspec⟩ := h hl
+      exact ⟨.tuple cs, by simp [hcs], rfl, by simp [specEnc, hspec]⟩
+  | err => trivial
+  | crash => exact h.elim
+  | unmodelled => exact h.elim
+
 theorem conf_aux (p : Nat) : ∀ (n : Nat) (g : GoVal) (t : CqlTy), sizeOf g ≤ n → nest t = true → wf g →
     documented t g = true → excluded p t g = false → Conf p t (marshal p t g) (interp t g) := by
   intro n
@@ -1064,7 +1263,7 @@ theorem conf_aux (p : Nat) : ∀ (n : Nat) (g : GoVal) (t : CqlTy), sizeOf g ≤
         simp only [wf, documented, excluded, Bool.and_eq_true, beq_iff_eq] at hw hd hx
         have hal : AllConf p ts vs := allconf_of p ts vs (fun v hv t' => ih v t'
           (by have := List.sizeOf_lt_of_mem hv; simp at hs; omega)) hn.2 hw hd.2 hx
-        have hc := tuple_conf p ts hn.1 _ _ (ifaces_conf p ts vs hn.2 hal)
+        have hc := tuple_conf p ts hn.1 _ _ (ifaces_conf p ts vs hd.2 hal)
         simp only [marshal, interp, hd.1, ne_eq, not_true_eq_false, if_false, if_true]
         exact hc
       | _ => first | (simp [nest] at hn; done) | (simp [documented, documentedScalar] at hd; done)
@@ -1129,9 +1328,31 @@ theorem conf_aux (p : Nat) : ∀ (n : Nat) (g : GoVal) (t : CqlTy), sizeOf g ≤
         cases isNil <;> first | exact hc | simp [Conf]
       | _ => first | (simp [nest] at hn; done) | (simp [documented, documentedScalar] at hd; done)
     | udtmap isNil names vs =>
-      cases t <;> first | (simp [nest] at hn; done) | (simp [documented, documentedScalar] at hd; done)
+      cases t with
+      | udt unames ts =>
+        simp only [nest, Bool.and_eq_true, Bool.not_eq_true', List.isEmpty_eq_false_iff, beq_iff_eq] at hn
+        obtain ⟨⟨⟨hne, hnd⟩, hlen⟩, hnest⟩ := hn
+        simp only [wf, excluded] at hw hx
+        have hf := assemble_conf p _ _ unames ts hlen
+          (udt_field_conf p unames ts names vs (fun v hv t' => ih v t'
+            (by have := List.sizeOf_lt_of_mem hv; simp at hs; omega)) hnd hnest hw hd hx)
+        have hc := udt_conf p unames ts _ _ hf
+        simp only [marshal, interp, udtAssemble, interpUdt, if_neg hne]
+        exact hc
+      | _ => first | (simp [nest] at hn; done) | (simp [documented, documentedScalar] at hd; done)
     | udtstruct names vs =>
-      cases t <;> first | (simp [nest] at hn; done) | (simp [documented, documentedScalar] at hd; done)
+      cases t with
+      | udt unames ts =>
+        simp only [nest, Bool.and_eq_true, Bool.not_eq_true', List.isEmpty_eq_false_iff, beq_iff_eq] at hn
+        obtain ⟨⟨⟨hne, hnd⟩, hlen⟩, hnest⟩ := hn
+        simp only [wf, excluded] at hw hx
+        have hf := assemble_conf p _ _ unames ts hlen
+          (udt_field_conf p unames ts names vs (fun v hv t' => ih v t'
+            (by have := List.sizeOf_lt_of_mem hv; simp at hs; omega)) hnd hnest hw hd hx)
+        have hc := udt_conf p unames ts _ _ hf
+        simp only [marshal, interp, udtAssemble, interpUdt, if_neg hne]
+        exact hc
+      | _ => first | (simp [nest] at hn; done) | (simp [documented, documentedScalar] at hd; done)
 
 /-- CONFORMANCE BY STRUCTURAL INDUCTION -/
 theorem marshal_conforms (p : Nat) (t : CqlTy) (g : GoVal) (hn : nest t = true) (hw : wf g)
